@@ -119,8 +119,10 @@ def sample_cases(sw: 'Sweep', rng, tier: str) -> list[tuple['Case', tuple[str, .
         hexform = spec.note == 'hex'
         vals = [log_uniform(rng, 0, limit) for _ in range(k)] + [log_uniform(rng, limit, limit << 16) for _ in range(k)]
         for v in vals:
-            if spec.name == 'attrCode' and v == 3:
-                continue  # code 3 is NEXT_HOP, which the template sets itself: a duplicated attribute (the first wins), not a numeric question
+            if spec.name == 'attrCode' and v in (3, 5):
+                # code 3 is NEXT_HOP, which the template sets itself: a duplicated attribute (the first wins); code 5 is
+                # LOCAL_PREF, which is rightly not sent on eBGP whatever form it was written in (C01): not numeric questions
+                continue
             out.append((Case(spec, hex(v) if hexform else str(v), v, cls_of(v, limit), 'sample'), entries))
         for _ in range(max(1, k // 2)):
             v = -log_uniform(rng, 1, limit << 8)
